@@ -97,7 +97,11 @@ func c16Sketch(c *Ctx, a *sketchAnchors, rule string) {
 					other = e.String()
 				}
 			}
-			if zero != 1 || pos != 1 || neg != 1 || other != "" || p.RetNil(0) != 1 {
+			retNil := p.RetNil(0) == 1
+			if r := p.RetT[0]; !retNil && isMethodCall(r, "Reweight") && len(r.Args) == 2 && isW(r.Args[1]) && calleeErr&(1<<uint(wc)) == 0 {
+				retNil = true // `return store.Reweight(w)`: no implementation fails for this factor class
+			}
+			if zero != 1 || pos != 1 || neg != 1 || other != "" || !retNil {
 				bad = fmt.Sprintf("zero*=w:%d positive.Reweight(w):%d negative.Reweight(w):%d other:%q %s", zero, pos, neg, other, describeRet(p))
 			}
 		}
